@@ -2018,3 +2018,77 @@ func stripOrdinals(key string) string {
 }
 
 var closureOrdinal = regexp.MustCompile(`(\$\d+)+`)
+
+// ---------------------------------------------------------------------------
+// R-FLOAT-OVERFLOW-SIGNED (C07; added after seed C07i): "float_overflow is raised when the IEEE result is infinite".
+// A sum leaves the range only when both operands pull the same way: a prediction made BEFORE adding has to know
+// the direction. In a float primitive that adds or subtracts its parameters, every return of float_overflow lies
+// under the fact that the result is infinite (math.IsInf true) or under a comparison of a parameter with 0 (its
+// sign). A test of magnitudes alone (|x| > max - |y|) also fires when the operands cancel: 1.5e308 - 1.0e308.
+func ruleFloatOverflowSigned(c *Ctx, r *Report) {
+	const rule = "R-FLOAT-OVERFLOW-SIGNED"
+	desc := "a float overflow predicted before an addition knows the direction of an operand"
+	n := 0
+	for _, fn := range c.numericFuncs() {
+		allFloat := true
+		for i := 0; i < fn.Signature.Params().Len(); i++ {
+			if !isEngNamed(fn.Signature.Params().At(i).Type(), "Float") {
+				allFloat = false
+			}
+		}
+		if !allFloat {
+			continue
+		}
+		adds := false
+		eachInstr(fn, func(in ssa.Instruction) {
+			if bo, ok := in.(*ssa.BinOp); ok && (bo.Op == token.ADD || bo.Op == token.SUB) && isEngNamed(bo.Type(), "Float") {
+				if _, px := stripConv(bo.X).(*ssa.Parameter); px {
+					if _, py := stripConv(bo.Y).(*ssa.Parameter); py {
+						adds = true
+					}
+				}
+			}
+		})
+		if !adds {
+			continue
+		}
+		k := 0
+		for _, b := range c.returnsExceptional(fn, "exceptionalValueFloatOverflow") {
+			n++
+			k++
+			key := fmt.Sprintf("%s/overflow-return#%d", fname(fn), k)
+			grounded := ""
+			for f := range c.factsAt(b) {
+				if call, ok := f.cond.(*ssa.Call); ok && f.pol {
+					if callee := call.Call.StaticCallee(); callee != nil && callee.Pkg != nil && callee.Pkg.Pkg.Path() == "math" && callee.Name() == "IsInf" {
+						grounded = "the result is known infinite"
+					}
+				}
+				if x, _, kk, ok := cmpConst(f.cond); ok && kk == 0 {
+					if _, isParam := stripConv(x).(*ssa.Parameter); isParam {
+						grounded = "the sign of a parameter is known"
+					}
+				}
+				if bo, ok := f.cond.(*ssa.BinOp); ok {
+					// float constants are not integers: x > 0.0
+					for _, pair := range [][2]ssa.Value{{bo.X, bo.Y}, {bo.Y, bo.X}} {
+						if _, isParam := stripConv(pair[0]).(*ssa.Parameter); isParam {
+							if kc, ok := pair[1].(*ssa.Const); ok && kc.Value != nil && constant.Sign(kc.Value) == 0 {
+								grounded = "the sign of a parameter is known"
+							}
+						}
+					}
+				}
+			}
+			last := b.Instrs[len(b.Instrs)-1]
+			if grounded != "" {
+				r.ok(rule, key, c.at(last), desc, grounded, true)
+			} else {
+				r.bad(rule, key, c.at(last), desc, "float_overflow is returned where neither the result is known infinite nor the sign of an operand is known: a test of magnitudes alone also fires when the operands cancel (1.5e308 - 1.0e308 is finite)")
+			}
+		}
+	}
+	if n == 0 {
+		r.undecided(rule, "scan/overflow-returns", "-", desc, "no float primitive that adds its parameters returns float_overflow")
+	}
+}
